@@ -138,7 +138,7 @@ def run_worker(binary, pkgdir, test, shard, nshards, tier, seed, outdir, budget,
     env.update({
         "VERIF_SHARD": "%d/%d" % (shard, nshards), "VERIF_TIER": tier, "VERIF_SEED": str(seed),
         "VERIF_OUT": outdir, "VERIF_BUDGET_S": str(budget), "SG_TEST_LOG_LEVEL": "none",
-        "SG_TEST_BUCKET_POOL_SIZE": "1",
+        "SG_TEST_BUCKET_POOL_SIZE": "8",
     })
     env["SG_TEST_BACKING_STORE"] = "rosmar"
     if gomaxprocs:
